@@ -296,6 +296,19 @@ def fixed_scenarios(cfg):
             bad.append({"k": "Add", "tree": t, "idx": last, "kind": "omit_leaf"})
         bad.append({"k": "Apply"})
     sc.append({"name": "every_corruption_first", "kind": "pibd", "steps": tidy_order(bad, cfg)})
+    # a first attempt that finalises the bitmap and is then fed output segments with altered data of a spent leaf
+    # (unverifiable: the segment validates) -> the final check refuses -> the restart sequence of state_sync.rs ->
+    # an honest retry, which must end in the same state as the twin
+    first = []
+    for i in range(cfg["nseg"]["bitmap"]):
+        first.append({"k": "Add", "tree": "bitmap", "idx": i, "kind": "honest"})
+    first += [{"k": "Apply"}] * (cfg["nseg"]["bitmap"] + 1)
+    for t in ("output", "rangeproof", "kernel"):
+        for i in range(cfg["nseg"][t]):
+            if t == "output":
+                first.append({"k": "Add", "tree": t, "idx": i, "kind": "poison_spent"})
+            first.append({"k": "Add", "tree": t, "idx": i, "kind": "honest"})
+    sc.append({"name": "poisoned_then_retry", "kind": "pibd", "steps": first + [{"k": "Finalize"}, {"k": "Restart"}] + canon})
     sc.append({"name": "archive", "kind": "archive"})
     return sc
 
@@ -370,6 +383,10 @@ def trace_of(cfg, result):
                           "proj": {"applied": e["proj"]["applied"], "desired": e["proj"]["desired"]}})
         elif e["k"] == "Finalize":
             lines.append({"k": "Finalize", "res": e["res"]})
+        elif e["k"] == "Restart":
+            if "proj" not in e:
+                break
+            lines.append({"k": "Restart", "res": e["res"], "proj": {"applied": e["proj"]["applied"], "desired": e["proj"]["desired"]}})
     return lines
 
 
@@ -402,7 +419,9 @@ def e2e_violations(rep, src, scen, result):
     for e in result.get("events", []):
         if e["k"] == "Add" and e.get("verdict") == "panic":
             rep.violation("pibd:add_%s_segment:panic:%s" % (e["tree"], e["kind"]), dict(case, event=e), json.dumps(e)[:300])
-        if e["k"] == "Add" and e.get("verdict") == "accept" and e["kind"] != "honest":
+        if e["k"] == "Restart" and e.get("res") != "ok":
+            rep.violation("pibd:restart:%s" % e.get("res"), dict(case, event=e), json.dumps(e)[:300])
+        if e["k"] == "Add" and e.get("verdict") == "accept" and e["kind"] not in ("honest", "poison_spent"):
             rep.violation("pibd:add_%s_segment:accepted:%s" % (e["tree"], e["kind"]), dict(case, event=e), json.dumps(e)[:300])
         if e["k"] == "Apply" and e.get("res") != "ok":
             rep.violation("pibd:apply_next_segments:%s" % e.get("res"), dict(case, event=e), json.dumps(e)[:300])
@@ -422,11 +441,21 @@ def run_e2e(rep, wd, src, n_orders, seed, cov):
     scens = fixed_scenarios(src.cfg)
     for i, o in enumerate(orders):
         scens.append({"name": "order_%d" % i, "kind": "pibd", "steps": tidy_order(o, src.cfg), "tlc_order": o})
+    if src.info["compacted"]:
+        scens.append({"name": "restart_probe", "kind": "restart_probe"})
     for s in scens:
         s["drain"] = sum(src.cfg["nseg"].values()) + 4
     res = run_scenarios(wd, src, scens, "a")
     all_lines, per = [], []
     for scen, result in res:
+        if scen["kind"] == "restart_probe":
+            # outside C16's statement (no restart of the receiver in its quantifier): recorded, never a verdict
+            cov["observations"]["restart_mid_sync:" + src.name] = result.get("probe")
+            continue
+        if scen["name"] == "poisoned_then_retry":
+            fz = [e["res"] for e in result.get("events", []) if e["k"] == "Finalize"]
+            if len(fz) == 2 and fz[0] == "err":
+                cov["refused_attempt_then_retry"] += 1
         fin = e2e_violations(rep, src, scen, result)
         cov["scenarios"] += 1
         if fin.get("finalised"):
@@ -587,18 +616,27 @@ def run(tier, replay):
         if x["serving"] != x["spec"]:
             rep.violation("pibd:serving_bitmap_mmr_size:outputs=%d" % c["outputs"], {"kind": "bmsize", "case": c, "observed": x},
                           "BitmapAccumulator for %d outputs has MMR size %s, definition %s" % (c["outputs"], x["serving"], x["spec"]))
-    # the invariants are not vacuous: without validate-then-cache and the final root check the model finalises
-    # wrong roots (tiny configuration)
+    # refused attempt -> Reset -> retry (poisoned deliveries are cached unverified: tiny configuration)
     tcfg = os.path.join(wd, "deseg_tiny.json")
     json.dump(synthetic_cfg(1, 1), open(tcfg, "w"))
-    r_mut = vlib.tlc("mc/MC_Desegmenter", "mc/MC_Desegmenter_mut_both", workers=2, coverage=False, timeout=600, env={"DESEG_CFG": tcfg})
-    if "NeverFinaliseWrongRoots" not in r_mut.invariant_violated:
-        print(r_mut.out[-2000:])
-        raise ToolError("mutant model (no validation, no root check) does not violate NeverFinaliseWrongRoots")
+    r_retry = vlib.tlc("mc/MC_Desegmenter", "mc/MC_Desegmenter_retry", workers=2, coverage=False, timeout=1200, env={"DESEG_CFG": tcfg})
+    if r_retry.invariant_violated:
+        print(r_retry.out[-3000:])
+        raise ToolError("Desegmenter.tla (retry) invariant %s violated inside the model" % r_retry.invariant_violated)
+    vlib.tlc_ok(r_retry, "MC_Desegmenter_retry")
+    mutants_shown = []
+    if thorough:
+        # the invariants are not vacuous: mutant models must violate them
+        for mcfg, inv in (("mc/MC_Desegmenter_mut_both", "NeverFinaliseWrongRoots"), ("mc/MC_Desegmenter_mut_reset", "GoodRetryHasRoots")):
+            r_mut = vlib.tlc("mc/MC_Desegmenter", mcfg, workers=2, coverage=False, timeout=1200, env={"DESEG_CFG": tcfg})
+            if inv not in r_mut.invariant_violated:
+                print(r_mut.out[-2000:])
+                raise ToolError("mutant model %s does not violate %s" % (mcfg, inv))
+            mutants_shown.append(mcfg)
     t_des = time.time() - t0
 
     # (A/B) end to end
-    cov = {"scenarios": 0, "finalised": 0, "deliveries": {}, "trace_events": 0}
+    cov = {"scenarios": 0, "finalised": 0, "deliveries": {}, "trace_events": 0, "observations": {}, "refused_attempt_then_retry": 0}
     n_orders = 14 if thorough else 5
     samples = []
     src_info = []
@@ -637,9 +675,11 @@ def run(tier, replay):
     st = selftest(wd, first_lines[:400]) if first_lines else 0
     if cov["finalised"] == 0:
         raise ToolError("no scenario finalised: vacuous run")
+    if cov["refused_attempt_then_retry"] == 0:
+        raise ToolError("no source produced a refused first attempt (poisoned spent leaf) followed by a retry")
 
     rep.coverage = {
-        "states": r_seg.distinct + r_des.distinct, "transitions": r_seg.generated + r_des.generated,
+        "states": r_seg.distinct + r_des.distinct + r_retry.distinct, "transitions": r_seg.generated + r_des.generated + r_retry.generated,
         "traces_validated_against_impl": len(cases) + cov["scenarios"],
         "samples": samples[:3] + [{"segment_case": {k: cases[len(cases) // 2][k] for k in ("nl", "rm", "comp", "late")},
                                    "first_seg": {k: v for k, v in cases[len(cases) // 2]["segs"][0].items() if k != "ops"}}],
@@ -648,11 +688,14 @@ def run(tier, replay):
                           "corruptions_by_kind_dep_verdict": {"%s:dep=%s:valid=%s" % k: n for k, n in sorted(ops.items())},
                           "depended_on_corruptions_refused": dep_rejected, "shapes": dict(SHAPES)},
         "desegmenter_model": {"states": r_des.distinct, "transitions": r_des.generated, "tlc_s": round(t_des, 1),
-                              "actions": {k: v[0] for k, v in ac.items()}, "mutant_model_violates": True,
+                              "actions": {k: v[0] for k, v in ac.items()}, "mutant_models_violate": mutants_shown,
+                              "retry_model": {"states": r_retry.distinct, "transitions": r_retry.generated},
                               "bitmap_mmr_size_cases": bm_res},
         "e2e": {"sources": src_info, "scenarios": cov["scenarios"], "finalised_equal_to_twin": cov["finalised"],
                 "deliveries_by_kind_verdict": cov["deliveries"], "trace_events_validated": cov["trace_events"],
-                "selftests": st, "segment_height_hook_present": hook},
+                "selftests": st, "segment_height_hook_present": hook,
+                "refused_attempt_restart_honest_retry_runs": cov["refused_attempt_then_retry"],
+                "observations": cov["observations"]},
         "checker_cmd": "tlc mc/MC_Segment; tlc mc/MC_Desegmenter; tlc trace/DesegmenterTrace",
     }
     rep.assumptions = [
